@@ -399,9 +399,20 @@ def probe_all():
         op = c["op"]
         if op == "toSchema" and c["cls"]["name"] == "Sch":
             impl = S.run_impl(c)
-            rows.append((op, "root", "none", probe_row(op, "root", "none", impl, [])))
+            # a second witness with a defaulted field (the `_required` list is rewritten for those)
+            impl2 = [S.run_impl(c2) for c2 in S.directed_cases()
+                     if c2["op"] == "toSchema" and c2["cls"]["name"] == "Dflt"][0]
+            mutated = not (impl.get("args_same", True) and impl2.get("args_same", True))
+            r0 = probe_row(op, "root", "none", impl, [])
+            r0["argMutated"] = mutated
+            rows.append((op, "root", "none", r0))
             for site in ("required", "enumValues", "default"):
-                rows.append((op, site, "any", probe_row(op, site, "any", impl, [site])))
+                r = probe_row(op, site, "any", impl, [site])
+                r2 = probe_row(op, site, "any", impl2, [site])
+                if r2["returns"] != "fresh":
+                    r["returns"] = r2["returns"]
+                r["argMutated"] = mutated and site == "required"
+                rows.append((op, site, "any", r))
             rows.append((op, "any", "none", probe_row(op, "any", "none", impl, ["__none__"])))
         if op == "schemaToCode" and c["cls"]["name"] == "Dflt":
             impl = S.run_impl(c)
